@@ -25,6 +25,7 @@ import Desync.Model.Chain
 import Desync.Model.Http
 import Driver.SparseAccept
 import Driver.IStore
+import Driver.ChainAccept
 
 namespace Driver
 open Desync
@@ -620,6 +621,8 @@ def runLine (l : String) : String :=
     | "http.retry" => cmdHttpRetry a
     | "chain.ops" => cmdChainOps a
     | "dedup.accept" => cmdDedupAccept a
+    | "failover.accept" => ChainAccept.cmdFailoverAccept a
+    | "swap.accept" => ChainAccept.cmdSwapAccept a
     | "store.name" => cmdStoreName a
     | "prune.classify" => cmdPruneClassify a
     | "prune.run" => cmdPruneRun a
